@@ -271,3 +271,20 @@ def scheduler_accounting_is_paired(ctx):
     ok = len(cs) == 1 and isinstance(cs[0]._parent, ast.Assign) and any(isinstance(n, ast.Raise) and norm(kwarg(n.exc, 'retry_time')) == norm(cs[0]._parent.targets[0]) for n in own_nodes(rb.node) if isinstance(n.exc if isinstance(n, ast.Raise) else None, ast.Call))
     ok2 = len(cs) == 1 and len(cs[0].args) == 3 and (q.ntext(rb, cs[0].args[2]) or '').replace(' ', '') in ('amt/float(self._max_rate)', 'amt/self._max_rate')
     ctx.ob(rb, 'retry_time of the exception = the wait returned by the scheduler; share = amt / max_rate', ok and ok2, 'the advised wait must be the scheduled one and a request\'s share its size at the maximum rate')
+
+
+@rule('C13.f', ['C13'], floor=2)
+def clock_is_read_under_the_bucket_lock(ctx):
+    """LeakyBucket.consume reads the clock while holding the bucket lock, and every value it
+    hands to the rate tracker / scheduler as "now" is that reading: a timestamp taken before
+    the lock can be older than the tracker's last one (negative interval -> infinite rate ->
+    traffic below the limit is throttled, permanently once recorded)."""
+    f = ctx.func('bandwidth.LeakyBucket.consume')
+    clocks = [c for c in own_calls(f.node) if (dotted(c.func) or '').endswith('_time_utils.time')]
+    ctx.ob(f, 'self._time_utils.time() inside `with self._lock`', len(clocks) == 1 and 'self._lock' in q.locks_held(clocks[0]),
+           'the clock must be read after the lock is taken')
+    tn = clocks[0]._parent.targets[0].id if len(clocks) == 1 and isinstance(clocks[0]._parent, ast.Assign) and isinstance(clocks[0]._parent.targets[0], ast.Name) else None
+    users = [c for c in own_calls(f.node) if (dotted(c.func) or '').startswith('self._') and not (dotted(c.func) or '').endswith('_time_utils.time')
+             and any(isinstance(a, ast.Name) and a.id == tn for a in c.args)]
+    ctx.ob(f, f'{tn} (the locked reading) is the time passed on', tn is not None and len(users) >= 2 and len(q.local_defs(f, tn)) == 1,
+           'a second/other clock value would make projected and recorded rates disagree')
